@@ -2363,7 +2363,9 @@ class SSHConnection(SSHPacketHandler, asyncio.Protocol):
                                packet: SSHPacket) -> None:
         """Process a key exchange request"""
 
-        if self._kex:
+        # An exchange isn't over until the peer's NEWKEYS has arrived,
+        # and the peer can't start another one before sending that
+        if self._kex or self._next_recv_encryption:
             raise ProtocolError('Key exchange already in progress')
 
         _ = packet.get_bytes(16)                        # cookie
